@@ -44,6 +44,14 @@ EXPLANATION = (
     "readers (index arithmetic of _load_sparse, _csr_to_dense, "
     "_load_disjoint_csr) are not decided.")
 
+EXPLANATION += (
+    ' Added after the seeded rounds: write cursors are used, advanced '
+    'and recorded in every iteration (R-CURSOR); chunked loops tile '
+    'their axis exactly (R-TILE); slices and gathers in the '
+    'transposition are applied in the index space they were computed in '
+    '(R-SPACE).'
+)
+
 RULE_TEXT = (
     "one obligation per (dispatcher, encoding member), per arm-"
     "distinctness relation, per cursor relation, per range step / slice "
